@@ -70,52 +70,40 @@ Proof.
   rewrite drop_last_app1. reflexivity.
 Qed.
 
-Theorem unquote_spec : forall v, arg_text_ok v = true -> unquote v = Some (value_as_written v).
+(* the model's unquote is the spec's value_as_written, for every text *)
+Theorem unquote_spec : forall v, unquote v = Some (value_as_written v).
 Proof.
-  intros [|a r] H; [discriminate H|].
-  unfold arg_text_ok in H. cbn [starts_dq] in H.
-  apply andb_prop in H. destruct H as [H Hlen]. apply andb_prop in H. destruct H as [_ Heq].
-  apply Bool.eqb_prop in Heq.
+  intros [|a r]; [reflexivity|].
   unfold unquote, value_as_written.
-  destruct (a =? 34)%N eqn:Ea.
-  - cbn [negb orb] in Hlen. destruct r as [|b r']; [cbn in Hlen; discriminate Hlen|].
-    unfold ends_dq in Heq. change (last_opt (a :: b :: r')) with (last_opt (b :: r')) in Heq.
-    destruct (last_opt (b :: r')) as [z|] eqn:El; [|discriminate Heq].
-    rewrite <- Heq. reflexivity.
-  - unfold ends_dq in Heq.
-    destruct (last_opt (a :: r)) as [z|] eqn:El.
-    + rewrite <- Heq. reflexivity.
-    + apply last_opt_none in El. discriminate El.
+  destruct (a =? 34)%N; [|reflexivity].
+  destruct (last_opt r) as [z|]; [|reflexivity].
+  destruct (z =? 34)%N; reflexivity.
 Qed.
 
 Example unquote_spec_nonvacuous :
-  arg_text_ok (s"""a b\""") = true /\ arg_text_ok (s"abc") = true /\ arg_text_ok (s"""""") = true
-  /\ unquote (s"""a b\""") = Some (s"a b\") /\ unquote (s"""""") = Some [].
+  unquote (s"""a b\""") = Some (s"a b\") /\ unquote (s"""""") = Some []
+  /\ unquote (s"abc") = Some (s"abc").
 Proof. vm_compute. repeat split. Qed.
 
-(* without the hypothesis the two differ: an opening quote only *)
-Example unquote_needs_ok :
-  unquote (s"""ab") = Some (s"ab") /\ value_as_written (s"""ab") = s"""ab"
-  /\ unquote [dq] = None.
+(* a quote at one end only is not a surrounding pair: the text stays as written *)
+Example unquote_half_quoted :
+  unquote (s"""ab") = Some (s"""ab") /\ unquote (s"a\""") = Some (s"a\""") /\ unquote [dq] = Some [dq].
 Proof. vm_compute. repeat split. Qed.
 
 (* ---- N2: set ---- *)
 
 Theorem process_set_spec : forall c doc docd st,
-  forallb arg_text_ok (singles c) = true ->
   process_set c doc docd st =
   match set_view (singles c) with
   | None => Ok st
   | Some (n, ty, v) => Ok (append (EVariable n doc ty v) docd st)
   end.
 Proof.
-  intros c doc docd st H. unfold process_set, set_view.
+  intros c doc docd st. unfold process_set, set_view.
   destruct (singles c) as [|name vals]; [reflexivity|].
   destruct vals as [|v vals]; [reflexivity|].
   destruct vals as [|w vals]; [|reflexivity].
-  cbn [forallb] in H. apply andb_prop in H. destruct H as [_ H].
-  apply andb_prop in H. destruct H as [Hv _].
-  rewrite (unquote_spec v Hv). reflexivity.
+  rewrite (unquote_spec v). reflexivity.
 Qed.
 
 (* the three shapes, spelled out *)
@@ -326,6 +314,47 @@ Example add_test_name_in_middle :
      = [ECTest (s"t") [] [s"COMMAND"; s"run"; s"run"]].
 Proof. vm_compute. split; reflexivity. Qed.
 
+(* the length premise is implied: with exactly one NAME and fewer than two arguments the
+   only argument is NAME itself, and no entry is made either way *)
+Lemma one_name_short : forall ps, one_name ps = true -> length ps < 2 -> name_after ps = None.
+Proof.
+  intros [|p [|q r]] H Hl; [discriminate H| |cbn [length] in Hl; lia].
+  unfold one_name in H. cbn [count_str] in H. cbn [name_after].
+  rewrite str_eqb_sym. destruct (str_eqb NAME p); [reflexivity|discriminate H].
+Qed.
+
+Theorem process_test_spec_any_length : forall is_section c doc docd st,
+  one_name (singles c) = true ->
+  process_test is_section c doc docd st =
+  match ct_view (singles c) with
+  | Some (n, xf) =>
+      with_awaiting (AwTop (length (documented st)))
+        (append (ETest is_section n doc xf [] false) docd st)
+  | None => st
+  end.
+Proof.
+  intros is_section c doc docd st Hone.
+  destruct (Nat.ltb_spec (length (singles c)) 2) as [Hlt|Hge].
+  - unfold process_test, ct_view. rewrite (one_name_short _ Hone Hlt).
+    destruct (Nat.ltb_spec (length (singles c)) 2) as [_|Hge]; [reflexivity|lia].
+  - apply process_test_spec; assumption.
+Qed.
+
+Theorem process_add_test_spec_any_length : forall c doc docd st,
+  one_name (singles c) = true ->
+  process_add_test c doc docd st =
+  match add_test_view (singles c) with
+  | Some (n, others) => append (ECTest n doc others) docd st
+  | None => st
+  end.
+Proof.
+  intros c doc docd st Hone.
+  destruct (Nat.ltb_spec (length (singles c)) 2) as [Hlt|Hge].
+  - unfold process_add_test, add_test_view. rewrite (one_name_short _ Hone Hlt).
+    destruct (Nat.ltb_spec (length (singles c)) 2) as [_|Hge]; [reflexivity|lia].
+  - apply process_add_test_spec; assumption.
+Qed.
+
 (* ---- N7: rendering of test entries ---- *)
 
 Theorem render_test_entry : forall sec n d xf ps mac,
@@ -354,6 +383,7 @@ Proof. vm_compute. repeat split. Qed.
    process_option_spec render_option_default
    scan_name_spec has_expectfail_spec name_after_none_iff
    process_test_spec process_add_test_spec add_test_repeated_name
+   process_test_spec_any_length process_add_test_spec_any_length
    render_test_entry render_ctest_entry warnings_distinct *)
 Print Assumptions unquote_spec.
 Print Assumptions unquote_quoted.
@@ -368,6 +398,8 @@ Print Assumptions name_after_none_iff.
 Print Assumptions process_test_spec.
 Print Assumptions process_add_test_spec.
 Print Assumptions add_test_repeated_name.
+Print Assumptions process_test_spec_any_length.
+Print Assumptions process_add_test_spec_any_length.
 Print Assumptions render_test_entry.
 Print Assumptions render_ctest_entry.
 Print Assumptions warnings_distinct.
